@@ -1,17 +1,80 @@
 """C03 — group law and public-key encodings.
 
-E1 field:   FieldElement over every prime p <= 31, complete operation tables vs integers mod p.
+E1 field:   FieldElement over every prime p <= 31, complete operation tables (and == / !=) vs integers mod p; the same
+            operations on boundary elements of the secp256k1 field (S256Field and FieldElement) and two other big primes.
 E1 curve:   generic Point over y^2 = x^3 + 7 for every prime 11 <= p <= 61 (101 thorough): complete
-            addition table (infinity, opposite, doubling incl. y = 0) and scalar multiples vs a brute-force group law.
-E3 toy-*:   the toy instantiation of S256Point: all pairs, all scalars, all encodings, all candidate byte strings.
+            addition table (infinity, opposite, doubling incl. y = 0), == / !=, scalar multiples incl. negative and
+            > 2^256 scalars vs a brute-force group law.
+E1 curve-ab: generic Point over EVERY non-singular y^2 = x^3 + ax + b over F_p, 5 <= p <= 23 (31 thorough).
+E3 toy-*:   the toy instantiation of S256Point: all pairs, all scalars, all encodings, all candidate byte strings,
+            the direct entry points parse_xonly / parse_sec over other lengths, S256Field.sqrt on the whole field.
 E1 real-*:  secp256k1 boundary scalars / point pairs / encodings against the Jacobian reference.
+
+Every scalar multiplication is evaluated under a per-evaluation SIGALRM guard: an evaluation that has not returned
+after LIMIT_* seconds (thousands of times its normal cost) is reported as "does-not-terminate".
 """
 import itertools
+import signal
+import threading
 
 from mc.core import Engine, Res, attempt, Rejected, filler_int, current_toy
 from mc.ref import ec
 
 PROP = "C03"
+
+LIMIT_SMALL = 5.0  # toy / small-curve evaluation: normal cost well under 1 ms
+LIMIT_REAL = 120.0  # secp256k1 scalar multiplication: normal cost about 0.1 s
+HANG = "does-not-terminate"
+
+
+class _NoTermination(BaseException):
+    """BaseException: a library `except Exception` cannot swallow it."""
+
+
+def _on_alarm(signum, frame):
+    raise _NoTermination()
+
+
+def guarded(limit, fn, *a):
+    """attempt(fn, *a) that gives up after `limit` seconds of wall clock: returns HANG instead of blocking the
+    explorer for ever.  Only the verdict "did not return" depends on the clock, never a compared value."""
+    if threading.current_thread() is not threading.main_thread():
+        return attempt(fn, *a)
+    old = signal.signal(signal.SIGALRM, _on_alarm)
+    signal.setitimer(signal.ITIMER_REAL, limit)
+    try:
+        r = attempt(fn, *a)
+    except _NoTermination:
+        r = Rejected("_NoTermination")
+    finally:
+        signal.setitimer(signal.ITIMER_REAL, 0)
+        signal.signal(signal.SIGALRM, old)
+    if isinstance(r, Rejected) and r.how == "_NoTermination":
+        return HANG
+    return r
+
+
+def xy(Q):
+    """(x, y) / None for infinity; Rejected and HANG pass through; an object without field-element coordinates is
+    reported as Rejected("malformed")."""
+    if Q is HANG or isinstance(Q, Rejected):
+        return Q
+    try:
+        return None if Q.x is None and Q.y is None else (Q.x.num, Q.y.num)
+    except AttributeError:
+        return Rejected("malformed")
+
+
+def add_class(P, Q):
+    if P is not None and P == Q and P[1] == 0:
+        return "double-y0"
+    if P is not None and P == Q:
+        return "double"
+    if P is None or Q is None:
+        return "identity"
+    if P[0] == Q[0]:
+        return "opposite"
+    return "chord"
 
 
 def primes(lo, hi):
@@ -19,13 +82,113 @@ def primes(lo, hi):
 
 
 # ------------------------------------------------------------------ FieldElement
+BIG_PRIMES = {"secp256k1-p": ec.SECP.p, "2^127-1": 2**127 - 1, "65537": 65537}
+
+
+def big_elements(q, f):
+    return [0, 1, 2, q - 2, q - 1, (q - 1) // 2, (q + 1) // 2, f[0] % q, f[1] % q]
+
+
+def big_exponents(q, f):
+    return [0, 1, 2, 3, -1, -2, q - 2, q - 1, q, 2 * (q - 1), (q + 1) // 4, -(q - 1), 2**256 + 1, f[2]]
+
+
+def big_coefficients(q, f):
+    return [-1, 0, 1, 2, 3, q, q + 1, 2**256, -(2**256), f[3]]
+
+
 def gen_field(tier, seed):
-    return [{"p": p} for p in primes(2, 31)]
+    cases = [{"p": p} for p in primes(2, 31)]
+    f = [str(filler_int(seed, "c03bigfield", i, 3, ec.SECP.p - 3)) for i in range(4)]
+    for cls, name in (("S256Field", "secp256k1-p"), ("FieldElement", "secp256k1-p"), ("FieldElement", "2^127-1"), ("FieldElement", "65537")):
+        cases += [{"big": name, "cls": cls, "i": i, "f": f} for i in range(9)]
+    return cases
+
+
+def run_field_big(case):
+    """Boundary elements of a big prime field (the real modulus through S256Field and through FieldElement)."""
+    from buidl.pecc import FieldElement, S256Field
+
+    res = Res()
+    q = BIG_PRIMES[case["big"]]
+    f = [int(v) for v in case["f"]]
+    s256 = case["cls"] == "S256Field"
+    mk = (lambda v: S256Field(v)) if s256 else (lambda v: FieldElement(v, q))
+    E = big_elements(q, f)
+    a = E[case["i"]]
+    only = case.get("only")
+    vc = lambda op, j: {"engine": "field", "case": dict(case, only=[op, j])}
+    bad = lambda got, ref: isinstance(got, Rejected) or getattr(got, "num", None) != ref or getattr(got, "prime", None) != q
+    for j, b in enumerate(E):
+        for op, fn, ref in (
+            ("add", lambda x, y: x + y, (a + b) % q),
+            ("sub", lambda x, y: x - y, (a - b) % q),
+            ("mul", lambda x, y: x * y, (a * b) % q),
+        ):
+            if only and only != [op, j]:
+                continue
+            got = attempt(fn, mk(a), mk(b))
+            if bad(got, ref):
+                res.violation(f"C03/field/{op}", vc(op, j), repr(got), ref, f"{case['cls']} {op} wrong modulo {case['big']}")
+            else:
+                res.ok(f"big {op}==ref", nontrivial=(case["big"], case["cls"], op, case["i"], j))
+        if not only or only == ["div", j]:
+            if b == 0:
+                res.skip("division by zero (undefined)")
+            else:
+                got = attempt(lambda x, y: x / y, mk(a), mk(b))
+                ref = a * pow(b, -1, q) % q
+                if bad(got, ref):
+                    res.violation("C03/field/div", vc("div", j), repr(got), ref, f"{case['cls']} division wrong modulo {case['big']}")
+                else:
+                    res.ok("big div==ref", nontrivial=(case["big"], case["cls"], "div", case["i"], j))
+        if not only or only == ["eq", j]:
+            e = attempt(lambda x, y: x == y, mk(a), mk(b))
+            ne = attempt(lambda x, y: x != y, mk(a), mk(b))
+            if e is not (a == b) or ne is not (a != b):
+                res.violation("C03/field/eq", vc("eq", j), [repr(e), repr(ne)], [a == b, a != b], "== / != of field elements disagrees with equality of the residues")
+            else:
+                res.ok("big eq==ref")
+    for j, e in enumerate(big_exponents(q, f)):
+        if only and only != ["pow", j]:
+            continue
+        if a == 0 and e <= 0:
+            res.skip("0 ** non-positive exponent (undefined / convention)")
+            continue
+        ref = pow(a, e, q)
+        got = attempt(lambda x: x**e, mk(a))
+        if bad(got, ref):
+            res.violation("C03/field/pow-zero-base" if a == 0 else "C03/field/pow", vc("pow", j), repr(got), ref, f"{case['cls']}({a}) ** {e} wrong modulo {case['big']}")
+        else:
+            res.ok("big pow==ref", nontrivial=(case["big"], case["cls"], "pow", case["i"], j))
+    for j, c in enumerate(big_coefficients(q, f)):
+        if only and only != ["rmul", j]:
+            continue
+        got = attempt(lambda x: c * x, mk(a))
+        ref = a * c % q
+        if bad(got, ref):
+            res.violation("C03/field/rmul", vc("rmul", j), repr(got), ref, "coefficient * field element wrong")
+        else:
+            res.ok("big rmul==ref", nontrivial=(case["big"], case["cls"], "rmul", case["i"], j))
+    if s256:
+        # S256Field.sqrt: a, a^2, -(a^2) (q % 4 == 3: exactly one of v, -v is a square for v != 0); oracle: Euler's criterion
+        for j, v in enumerate([a, a * a % q, (-a * a) % q]):
+            if only and only != ["sqrt", j]:
+                continue
+            square = pow(v, (q - 1) // 2, q) in (0, 1)
+            got = attempt(lambda: mk(v).sqrt())
+            if square != (not isinstance(got, Rejected)) or (square and (getattr(got, "num", None) is None or got.num * got.num % q != v)):
+                res.violation("C03/field/sqrt", vc("sqrt", j), repr(got), "a square root" if square else "rejected", "S256Field.sqrt wrong on the real field")
+            else:
+                res.ok("big sqrt==ref", nontrivial=("sqrt", case["i"], j))
+    return res
 
 
 def run_field(case):
     from buidl.pecc import FieldElement
 
+    if "big" in case:
+        return run_field_big(case)
     res = Res()
     p = case["p"]
     vc = lambda op, a, b: {"engine": "field", "case": dict(case, only=[op, a, b])}
@@ -77,6 +240,25 @@ def run_field(case):
                 res.violation("C03/field/rmul", vc("rmul", a, c), repr(got), ref, "coefficient * FieldElement wrong")
             else:
                 res.bulk("rmul==ref", 1, 1)
+    # the library's own == / != : all pairs of F_p (fresh right operand), and the same residue in the next prime field
+    q = primes(p + 1, 2 * p + 2)[0]
+    for a in range(p):
+        for b in range(p):
+            if only and only != ["eq", a, b]:
+                continue
+            e = attempt(lambda x, y: x == y, els[a], FieldElement(b, p))
+            ne = attempt(lambda x, y: x != y, els[a], FieldElement(b, p))
+            if e is not (a == b) or ne is not (a != b):
+                res.violation("C03/field/eq", vc("eq", a, b), [repr(e), repr(ne)], [a == b, a != b], f"== / != of FieldElements wrong in F_{p}")
+            else:
+                res.bulk("eq==ref", 1, 1)
+        if not only or only == ["eqx", a, 0]:
+            e = attempt(lambda x, y: x == y, els[a], FieldElement(a, q))
+            ne = attempt(lambda x, y: x != y, els[a], FieldElement(a, q))
+            if e is not False or ne is not True:
+                res.violation("C03/field/eq", vc("eqx", a, 0), [repr(e), repr(ne)], [False, True], f"elements of F_{p} and F_{q} with the same residue compare equal")
+            else:
+                res.bulk("eq across fields==ref", 1, 1)
     return res
 
 
@@ -106,7 +288,7 @@ def run_curve(case):
         return Point(FieldElement(P[0], p), FieldElement(P[1], p), a, b)
 
     def un(Q):
-        if isinstance(Q, Rejected):
+        if isinstance(Q, Rejected) or Q is HANG:
             return Q
         return None if Q.x is None else (Q.x.num, Q.y.num)
 
@@ -142,13 +324,47 @@ def run_curve(case):
             if only and only != ["mul", P and list(P), k]:
                 acc = c.add(acc, P)
                 continue
-            got = un(attempt(lambda x: k * x, objs[P]))
+            got = un(guarded(LIMIT_SMALL, lambda x: k * x, objs[P]))
             if got != acc:
                 cls = "mul-y0" if P and P[1] == 0 else "mul"
+                if got is HANG:
+                    cls += "-does-not-terminate"
                 res.violation(f"C03/curve/{cls}", vc("mul", P, k), got, acc, f"k*P wrong over F_{p}")
             else:
                 res.bulk("mul==ref", 1, 1)
             acc = c.add(acc, P)
+    # scalars outside [0, 2*order]: > 2^256 and every negative k in [-2*order, -1] (and -2^256): k*P = |k| * (-P)
+    hung = capped = 0
+    for P in pts[1:] + [None]:
+        for k in list(range(-1, -2 * order - 1, -1)) + [2**256, 2**256 + 1, -(2**256), -(2**256) - 1]:
+            if only and only != ["mulz", P and list(P), str(k)]:
+                continue
+            if k < 0 and hung:
+                capped += 1
+                continue
+            ref = c.mul_affine(k, P)
+            got = un(guarded(LIMIT_SMALL, lambda x: k * x, objs[P]))
+            if got is HANG:
+                hung += 1
+                cls = "negative-scalar-does-not-terminate" if k < 0 else "mul-does-not-terminate"
+                res.violation(f"C03/curve/{cls}", vc("mulz", P, str(k)), HANG, ref, f"k*P did not return within {LIMIT_SMALL} s for k = {k} over F_{p}")
+            elif got != ref:
+                res.violation("C03/curve/mul-negative-scalar" if k < 0 else "C03/curve/mul-huge-scalar", vc("mulz", P, str(k)), got, ref, f"k*P wrong for k = {k} over F_{p}")
+            else:
+                res.bulk("mul(negative/huge k)==ref", 1, 1)
+    if capped:
+        res.caps.append(f"curve p={p}: {capped} negative-scalar evaluations not executed after one that did not terminate")
+    # the library's own == / != on every pair (fresh right operand)
+    for P in pts:
+        for Q in pts:
+            if only and only != ["eq", P and list(P), Q and list(Q)]:
+                continue
+            e = attempt(lambda x, y: x == y, objs[P], mk(Q))
+            ne = attempt(lambda x, y: x != y, objs[P], mk(Q))
+            if e is not (P == Q) or ne is not (P != Q):
+                res.violation("C03/curve/eq", vc("eq", P, Q), [repr(e), repr(ne)], [P == Q, P != Q], f"Point == / != disagrees with equality of coordinates over F_{p}")
+            else:
+                res.bulk("eq==ref", 1, 1)
     # off-curve points must be refused by the constructor
     for x in range(p):
         for y in range(p):
@@ -178,6 +394,93 @@ def run_curve(case):
     return res
 
 
+# ------------------------------------------------------------------ generic Point on every small curve y^2 = x^3 + ax + b
+def gen_curve_ab(tier, seed):
+    hi = 23 if tier == "quick" else 31
+    return [{"p": p, "a": a, "t": tier} for p in primes(5, hi) for a in range(p)]
+
+
+def ab_scalars(order, tier):
+    """thorough: every k with |k| <= order+1; quick: every k with |k| <= min(order+1, 12) and +-(order-1), +-order, +-(order+1)."""
+    m = order + 1 if tier == "thorough" else min(order + 1, 12)
+    pos = sorted(set(range(0, m + 1)) | {order - 1, order, order + 1})
+    return pos + [-k for k in pos if k]
+
+
+def run_curve_ab(case):
+    from buidl.pecc import FieldElement, Point
+
+    res = Res()
+    p, a = case["p"], case["a"]
+    only = case.get("only")
+    vc = lambda op, b, x, y: {"engine": "curve-ab", "case": dict(case, only=[op, b, x, y])}
+    fa = FieldElement(a, p)
+    hung = capped = 0
+    for b in range(p):
+        if only and only[1] != b:
+            continue
+        if (4 * a**3 + 27 * b * b) % p == 0:
+            res.skip("singular curve (4a^3 + 27b^2 = 0 mod p): the points do not form a group")
+            continue
+        w = ec.Curve(p, 0, None, a=a, b=b)
+        pts = [None] + [(x, y) for x in range(p) for y in range(p) if (y * y - x * x * x - a * x - b) % p == 0]
+        ptset = set(pts)
+        order = len(pts)
+        fb = FieldElement(b, p)
+
+        def mk(P):
+            if P is None:
+                return Point(None, None, fa, fb)
+            return Point(FieldElement(P[0], p), FieldElement(P[1], p), fa, fb)
+
+        objs = {P: mk(P) for P in pts}
+        for P in pts:
+            for Q in pts:
+                if not only or only == ["add", b, P and list(P), Q and list(Q)]:
+                    ref = w.add(P, Q)
+                    assert ref in ptset
+                    got = xy(attempt(lambda x, y: x + y, objs[P], objs[Q]))
+                    if got != ref:
+                        res.violation(f"C03/curve-ab/add-{add_class(P, Q)}", vc("add", b, P, Q), got, ref, f"Point addition wrong on y^2=x^3+{a}x+{b} over F_{p}")
+                    else:
+                        res.bulk("add==ref", 1, 1)
+                if not only or only == ["eq", b, P and list(P), Q and list(Q)]:
+                    e = attempt(lambda x, y: x == y, objs[P], mk(Q))
+                    ne = attempt(lambda x, y: x != y, objs[P], mk(Q))
+                    if e is not (P == Q) or ne is not (P != Q):
+                        res.violation("C03/curve-ab/eq", vc("eq", b, P, Q), [repr(e), repr(ne)], [P == Q, P != Q], "Point == / != disagrees with equality of coordinates")
+                    else:
+                        res.bulk("eq==ref", 1, 1)
+            for k in ab_scalars(order, case.get("t", "thorough")):
+                if only and only != ["mul", b, P and list(P), k]:
+                    continue
+                if k < 0 and hung:
+                    capped += 1
+                    continue
+                ref = w.mul_affine(k, P)
+                got = xy(guarded(LIMIT_SMALL, lambda x: k * x, objs[P]))
+                if got is HANG:
+                    hung += 1
+                    cls = "negative-scalar-does-not-terminate" if k < 0 else "mul-does-not-terminate"
+                    res.violation(f"C03/curve-ab/{cls}", vc("mul", b, P, k), HANG, ref, f"k*P did not return within {LIMIT_SMALL} s for k = {k}")
+                elif got != ref:
+                    res.violation("C03/curve-ab/mul-negative-scalar" if k < 0 else "C03/curve-ab/mul", vc("mul", b, P, k), got, ref, f"k*P wrong on y^2=x^3+{a}x+{b} over F_{p}")
+                else:
+                    res.bulk("mul==ref", 1, 1)
+        for x in range(p):
+            for y in range(p):
+                if (x, y) in ptset or (only and only != ["offcurve", b, x, y]):
+                    continue
+                got = attempt(lambda: Point(FieldElement(x, p), FieldElement(y, p), fa, fb))
+                if not isinstance(got, Rejected):
+                    res.violation("C03/curve-ab/offcurve-accepted", vc("offcurve", b, x, y), repr(got), "rejected", "off-curve point constructed")
+                else:
+                    res.bulk("offcurve rejected", 1, 1)
+    if capped:
+        res.caps.append(f"curve-ab p={p} a={a}: {capped} negative-scalar evaluations not executed after one that did not terminate")
+    return res
+
+
 # ------------------------------------------------------------------ toy S256Point
 def gen_toy_points(toy):
     def g(tier, seed):
@@ -201,7 +504,7 @@ def run_toy_points(case):
         return pecc.S256Point(None, None) if P is None else pecc.S256Point(P[0], P[1])
 
     def un(Q):
-        if isinstance(Q, Rejected):
+        if isinstance(Q, Rejected) or Q is HANG:
             return Q
         return None if Q.x is None else (Q.x.num, Q.y.num)
 
@@ -231,8 +534,12 @@ def run_toy_points(case):
     for s in range(-2 * n, 3 * n + 1):
         if only and only != ["rmul", s]:
             continue
-        got = un(attempt(lambda: s * oP))
+        got = un(guarded(LIMIT_SMALL, lambda: s * oP))
         ref = c.mul_affine(s % n, P) if P else None
+        if got is HANG:
+            res.violation("C03/toy-points/rmul-does-not-terminate", vc("rmul", s), HANG, ref, f"scalar * S256Point did not return within {LIMIT_SMALL} s")
+            res.caps.append(f"toy-points k={k}: scalars after {s} not executed after an evaluation that did not terminate")
+            break
         if got != ref:
             res.violation("C03/toy-points/rmul", vc("rmul", s), got, ref, "scalar * S256Point wrong")
         else:
@@ -274,6 +581,97 @@ def run_toy_points(case):
                 res.violation("C03/toy-points/xonly-roundtrip", vc("enc", "x"), back, ref, "parse(xonly()) is not the even-Y lift")
             else:
                 res.bulk("xonly roundtrip", 1, 1)
+    # ---- the library's own == / != on every pair, and the statement's identities expressed with them
+    thirds = (None, c.g, c.mul_affine(n - 1, c.g))
+    for j in range(n):
+        Q = c.mul_affine(j, c.g)
+        if not only or only == ["eq", j]:
+            e = attempt(lambda: oP == mk(Q))
+            ne = attempt(lambda: oP != mk(Q))
+            if e is not (P == Q) or ne is not (P != Q):
+                res.violation("C03/toy-points/eq", vc("eq", j), [repr(e), repr(ne)], [P == Q, P != Q], "S256Point == / != disagrees with equality of coordinates")
+            else:
+                res.bulk("eq==ref", 1, 1)
+        if not only or only == ["sum-eq", j]:
+            # (P + Q) compared with the reference sum and with a different point through the library's ==
+            ref = c.add(P, Q)
+            other = c.add(ref, c.g)
+            e = attempt(lambda: (oP + mk(Q)) == mk(ref))
+            ne = attempt(lambda: (oP + mk(Q)) == mk(other))
+            if e is not True or ne is not False:
+                res.violation("C03/toy-points/identity-via-eq", vc("sum-eq", j), [repr(e), repr(ne)], [True, False], "P + Q == (reference sum) is not True, or P + Q == (another point) is not False")
+            else:
+                res.bulk("P+Q == ref via ==", 1, 1)
+        # ---- combine() and += : folds of the group law
+        if not only or only == ["combine", j]:
+            oQ = mk(Q)
+            outs = [(un(attempt(pecc.S256Point.combine, [oP, oQ])), c.add(P, Q))]
+            for R in thirds:
+                outs.append((un(attempt(pecc.S256Point.combine, [oP, oQ, mk(R)])), c.add(c.add(P, Q), R)))
+                outs.append((un(attempt(pecc.S256Point.combine, [mk(R), oP, oQ])), c.add(c.add(R, P), Q)))
+            if any(g != r for g, r in outs):
+                res.violation("C03/toy-points/combine", vc("combine", j), [g for g, r in outs], [r for g, r in outs], "S256Point.combine(points) is not the sum of the points")
+            else:
+                res.bulk("combine==ref", len(outs), len(outs))
+        if not only or only == ["iadd", j]:
+
+            def iadd():
+                x = mk(P)
+                keep = x
+                x += mk(Q)
+                return x, keep
+
+            got = attempt(iadd)
+            if isinstance(got, Rejected) or un(got[0]) != c.add(P, Q) or un(got[1]) != P:
+                res.violation("C03/toy-points/iadd", vc("iadd", j), repr(got), [c.add(P, Q), P], "x += Q: wrong sum, or the original operand object was modified")
+            else:
+                res.bulk("iadd==ref", 1, 1)
+    if not only or only == ["combine", -1]:
+        got = un(attempt(pecc.S256Point.combine, [oP]))
+        if got != P:
+            res.violation("C03/toy-points/combine", vc("combine", -1), got, P, "combine([P]) != P")
+        else:
+            res.bulk("combine==ref", 1, 1)
+    if P is not None and (not only or only[0] == "identities"):
+        nP = c.neg(P)
+        chk = {
+            "P+(-P)==inf": attempt(lambda: (oP + mk(nP)) == mk(None)),
+            "P+P==2P": attempt(lambda: (oP + oP) == 2 * oP),
+            "not P+P!=2P": attempt(lambda: not ((oP + oP) != 2 * oP)),
+            "nP==inf": attempt(lambda: (n * oP) == mk(None)),
+            "-1*P==-P": attempt(lambda: (-1 * oP) == mk(nP)),
+            "even_point": un(attempt(oP.even_point)) == (P if P[1] % 2 == 0 else nP),
+        }
+        badk = sorted(k2 for k2, v in chk.items() if v is not True)
+        if badk:
+            res.violation("C03/toy-points/even_point" if badk == ["even_point"] else "C03/toy-points/identity-via-eq", vc("identities", 0), badk, "all True", "identities of the statement evaluated with the library's own == fail")
+        else:
+            res.bulk("identities via ==", len(chk), len(chk))
+    # ---- the second constructor path: coordinates given as S256Field objects (the library's own results use it)
+    if P is not None and (not only or only[0] == "ctor"):
+        F = pecc.S256Field
+        tw = attempt(lambda: pecc.S256Point(F(P[0]), F(P[1])))
+        ok = (
+            not isinstance(tw, Rejected)
+            and un(tw) == P
+            and getattr(tw, "parity", None) == P[1] % 2
+            and attempt(tw.sec, True) == c.sec(P, True)
+            and attempt(tw.sec, False) == c.sec(P, False)
+            and un(attempt(lambda: tw + pecc.G)) == c.add(P, c.g)
+            and un(attempt(lambda: 2 * tw)) == c.add(P, P)
+            and attempt(lambda: tw == oP) is True
+        )
+        if not ok:
+            res.violation("C03/toy-points/ctor-field-elements", vc("ctor", 0), repr(tw), P, "S256Point(S256Field(x), S256Field(y)) differs from S256Point(x, y) (coordinates, parity, sec, +, *)")
+        else:
+            res.bulk("ctor(S256Field)==ctor(int)", 1, 1)
+        # mixed int / S256Field arguments: either refused or the same point, never another one
+        for nm, mixed in (("int,field", lambda: pecc.S256Point(P[0], F(P[1]))), ("field,int", lambda: pecc.S256Point(F(P[0]), P[1]))):
+            m = attempt(mixed)
+            if not isinstance(m, Rejected) and (xy(m) != P or attempt(m.sec, False) != c.sec(P, False)):
+                res.violation("C03/toy-points/ctor-mixed-wrong-point", vc("ctor", 0), repr(m), "rejected or the same point", f"S256Point({nm}) constructs a different / malformed point")
+            else:
+                res.bulk("ctor mixed: rejected or same point", 1, 1)
     return res
 
 
@@ -283,6 +681,10 @@ def gen_toy_decode(toy):
         cases = [{"toy": list(toy), "kind": "sec33", "prefix": pf} for pf in range(256)]
         cases += [{"toy": list(toy), "kind": "sec65", "prefix": pf} for pf in (0, 1, 2, 3, 4, 5, 6, 7, 0x84, 0xFF)]
         cases += [{"toy": list(toy), "kind": "xonly"}]
+        # direct entry points (not routed by length through S256Point.parse) and S256Field.sqrt on the whole field
+        cases += [{"toy": list(toy), "kind": "xonly-direct"}]
+        cases += [{"toy": list(toy), "kind": "sec-direct", "prefix": pf} for pf in (0, 1, 2, 3, 4, 5, 6, 7, 0xFF)]
+        cases += [{"toy": list(toy), "kind": "sqrt"}]
         return cases
 
     return g
@@ -322,8 +724,11 @@ def run_toy_decode(case):
                 res.ok("sec33==ref", nontrivial=(pf, x))
     elif case["kind"] == "sec65":
         pf = case["prefix"]
-        for x in xs[: p + 1]:
-            for y in range(0, p + 1):
+        # prefix 04: coordinates up to 2p+2, so that every point (x0, y0) also appears as (x0 + p, y0), (x0, y0 + p),
+        # (x0 + p, y0 + p): strings whose coordinates are >= p but congruent to a curve point must be refused
+        hi = 2 * p + 3 if pf == 4 else p + 1
+        for x in range(0, hi):
+            for y in range(0, hi):
                 if only is not None and only != [x, y]:
                     continue
                 b = bytes([pf]) + ec.b32(x) + ec.b32(y)
@@ -331,9 +736,74 @@ def run_toy_decode(case):
                 got = un(attempt(pecc.S256Point.parse, b))
                 if got != ref:
                     cls = "bad-prefix-accepted" if pf != 4 else "uncompressed"
+                    if pf == 4 and (x >= p or y >= p):
+                        cls = "coordinate-ge-p-accepted"
                     res.violation(f"C03/toy-decode/sec65-{cls}", vc([x, y]), got, ref, "65-byte string: decode differs from SEC1")
                 else:
                     res.bulk("sec65==ref", 1, 1)
+    elif case["kind"] == "xonly-direct":
+        # S256Point.parse_xonly called directly: only 32-byte strings are x-only encodings
+        def variants(x):
+            out = [x.to_bytes(L, "big") for L in (1, 2, 16, 31, 33, 34, 64, 65) if x < 256**L]
+            out += [ec.b32(x) + b"\x00", b"\x02" + ec.b32(x), b"\x03" + ec.b32(x), ec.b32(x) + ec.b32(x), b"\x04" + ec.b32(x) + ec.b32(x)]
+            return out
+
+        for i, b in enumerate([b""] + [v for x in xs for v in variants(x)]):
+            if only is not None and only != ["len", i]:
+                continue
+            got = un(attempt(pecc.S256Point.parse_xonly, b))
+            if got is not None:
+                res.violation("C03/toy-decode/parse_xonly-wrong-length-accepted", vc(["len", i]), got, None, f"parse_xonly accepts a {len(b)}-byte string ({b.hex()})")
+            else:
+                res.ok("parse_xonly(len != 32) rejected", nontrivial=("xlen", i))
+        for x in xs:
+            if only is not None and only != ["x", x]:
+                continue
+            if x == 0:
+                res.skip("x-only 00..00: the library's own encoding of infinity (round-trips with xonly()); not asserted")
+                continue
+            ref = c.lift_x(x)
+            got = un(attempt(pecc.S256Point.parse_xonly, ec.b32(x)))
+            if got != ref:
+                res.violation("C03/toy-decode/xonly", vc(["x", x]), got, ref, "parse_xonly(32 bytes): decode differs from lift_x")
+            else:
+                res.ok("parse_xonly==ref", nontrivial=("xd", x))
+    elif case["kind"] == "sec-direct":
+        # S256Point.parse_sec called directly: 33 bytes with 02/03 or 65 bytes with 04, nothing else
+        pf = case["prefix"]
+        P1 = bytes([pf])
+
+        def variants(x):
+            ys = [Q[1] for Q in (c.lift_x(x), c.lift_x(x, odd=True)) if Q] or [0, 1]
+            out = [P1 + ec.b32(x), P1 + ec.b32(x)[1:], P1 + ec.b32(x) + b"\x00"]
+            if x < 256:
+                out.append(P1 + bytes([x]))
+            for y in ys:
+                full = P1 + ec.b32(x) + ec.b32(y)
+                out += [full, full[:-1], full + b"\x00"]
+            return out
+
+        for i, b in enumerate([b"", P1] + [v for x in xs for v in variants(x)]):
+            if only is not None and only != i:
+                continue
+            ref = c.parse_sec(b)
+            got = un(attempt(pecc.S256Point.parse_sec, b))
+            if got != ref:
+                cls = "parse_sec-direct-wrong-length-accepted" if len(b) not in (33, 65) else "parse_sec-direct"
+                res.violation(f"C03/toy-decode/{cls}", vc(i), got, ref, f"parse_sec on a {len(b)}-byte string ({b.hex()}): decode differs from SEC1")
+            else:
+                res.ok("parse_sec(direct)==ref", nontrivial=("sd", pf, i))
+    elif case["kind"] == "sqrt":
+        # S256Field.sqrt on every element of the toy field; oracle: brute-force table of squares
+        squares = {y * y % p for y in range(p)}
+        for v in range(p):
+            if only is not None and only != v:
+                continue
+            got = attempt(lambda: pecc.S256Field(v).sqrt())
+            if (v in squares) != (not isinstance(got, Rejected)) or (v in squares and (getattr(got, "num", None) is None or got.num * got.num % p != v)):
+                res.violation("C03/toy-decode/sqrt", vc(v), repr(got), "a square root" if v in squares else "rejected", "S256Field.sqrt: root returned for a non-square, or no / wrong root for a square")
+            else:
+                res.ok("sqrt==ref", nontrivial=("sqrt", v))
     else:
         for x in xs:
             if only is not None and only != x:
@@ -362,11 +832,34 @@ def real_scalars(seed, tier):
     return s
 
 
+def real_points(tier):
+    """Points that are not boundary multiples of G: for the first small x with a point A = (x, even y): A, -A and
+    the points with the SAME y and another x, (beta*x, y), (beta^2*x, y) with beta^3 = 1 (chord of slope 0), and
+    their negations.  x is tiny, so its 32-byte encoding is almost all zero padding."""
+    c = ec.SECP
+    beta = next(b for b in (pow(g, (PP - 1) // 3, PP) for g in range(2, 20)) if b != 1)
+    assert pow(beta, 3, PP) == 1
+    out = []
+    for x in [x for x in range(1, 60) if c.lift_x(x)][: 2 if tier == "quick" else 4]:
+        A = c.lift_x(x)
+        for Q in (A, (A[0] * beta % PP, A[1]), (A[0] * beta * beta % PP, A[1])):
+            assert c.on_curve(Q)
+            out += [Q, c.neg(Q)]
+    return out
+
+
+PT_SCALARS = [2, -1, 2**255, 2**256 - 1, N // 2, N // 2 + 1, -(2**300) - 7]
+
+
 def gen_real_mul(tier, seed):
     ss = real_scalars(seed, tier)
     cases = [{"op": "mulG", "a": str(a)} for a in ss]
     pairs = list(itertools.product(ss[:8] + ss[-2:], repeat=2)) if tier == "quick" else list(itertools.product(ss, repeat=2))
     cases += [{"op": "lin", "a": str(a), "b": str(b)} for a, b in pairs]
+    npts = len(real_points(tier))
+    cases += [{"op": "ptadd", "t": tier, "i": i, "j": j} for i in range(npts) for j in range(npts)]
+    # scalar multiples of A and (beta*x, y) for every base x
+    cases += [{"op": "ptmul", "t": tier, "i": i, "k": str(k)} for base in range(0, npts, 6) for i in (base, base + 2) for k in PT_SCALARS]
     return cases
 
 
@@ -378,17 +871,45 @@ def run_real_mul(case):
     G = pecc.G
 
     def un(Q):
-        if isinstance(Q, Rejected):
+        if isinstance(Q, Rejected) or Q is HANG:
             return Q
         return None if Q.x is None else (Q.x.num, Q.y.num)
 
-    a = int(case["a"])
+    hfp = lambda fp, got: fp + "-does-not-terminate" if got is HANG else fp
     vc = {"engine": "real-mul", "case": case}
+    mk = lambda P: pecc.S256Point(None, None) if P is None else pecc.S256Point(P[0], P[1])
+    if case["op"] == "ptadd":
+        pts = real_points(case["t"])
+        X, Y = pts[case["i"]], pts[case["j"]]
+        ref = c.add(X, Y)
+        got = un(attempt(lambda: mk(X) + mk(Y)))
+        if got != ref:
+            res.violation(f"C03/real-mul/ptadd-{add_class(X, Y) if X[1] != Y[1] or X == Y else 'same-y'}", vc, got, ref, "X + Y wrong on secp256k1 (points of unknown discrete logarithm / equal y)")
+        else:
+            res.ok("X+Y==ref", nontrivial=("ptadd", case["i"], case["j"]), sample=case)
+        e = [attempt(lambda: mk(X) == mk(Y)), attempt(lambda: mk(X) != mk(Y)), attempt(lambda: (mk(X) + mk(Y)) == mk(ref)), attempt(lambda: (mk(X) + mk(Y)) != mk(ref))]
+        if e != [X == Y, X != Y, True, False] or any(not isinstance(v, bool) for v in e):
+            res.violation("C03/real-mul/eq", vc, [repr(v) for v in e], [X == Y, X != Y, True, False], "S256Point == / != disagrees with equality of coordinates")
+        else:
+            res.ok("== / != agree with coordinates")
+        return res
+    if case["op"] == "ptmul":
+        X = real_points(case["t"])[case["i"]]
+        k = int(case["k"])
+        ref = c.mul(k % N, X)
+        assert ref == c.mul_affine(k % N, X)
+        got = un(guarded(LIMIT_REAL, lambda: k * mk(X)))
+        if got != ref:
+            res.violation(hfp("C03/real-mul/ptmul", got), vc, got, ref, "k*X wrong on secp256k1 for a point of unknown discrete logarithm")
+        else:
+            res.ok("kX==ref", nontrivial=("ptmul", case["i"], case["k"]))
+        return res
+    a = int(case["a"])
     if case["op"] == "mulG":
-        got = un(attempt(lambda: a * G))
+        got = un(guarded(LIMIT_REAL, lambda: a * G))
         ref = c.mulg(a % N)
         if got != ref:
-            res.violation("C03/real-mul/mulG", vc, got, ref, "a*G wrong on secp256k1")
+            res.violation(hfp("C03/real-mul/mulG", got), vc, got, ref, "a*G wrong on secp256k1")
         else:
             res.ok("aG==ref", nontrivial=("mulG", case["a"]), sample=case)
         if 1 <= a <= N - 1:
@@ -399,16 +920,15 @@ def run_real_mul(case):
                 res.ok("PrivateKey.point==ref")
         # n*P = infinity
         if ref is not None:
-            got = un(attempt(lambda: N * pecc.S256Point(ref[0], ref[1])))
+            got = un(guarded(LIMIT_REAL, lambda: N * pecc.S256Point(ref[0], ref[1])))
             if got is not None:
-                res.violation("C03/real-mul/nP", vc, got, None, "n*P != infinity")
+                res.violation(hfp("C03/real-mul/nP", got), vc, got, None, "n*P != infinity")
             else:
                 res.ok("nP==inf")
         return res
     b = int(case["b"])
     A = c.mulg(a % N)
     B = c.mulg(b % N)
-    mk = lambda P: pecc.S256Point(None, None) if P is None else pecc.S256Point(P[0], P[1])
     # aG + bG == (a+b)G  == reference
     got = un(attempt(lambda: mk(A) + mk(B)))
     ref = c.add(A, B)
@@ -418,20 +938,26 @@ def run_real_mul(case):
         res.violation(f"C03/real-mul/add-{cls}", vc, got, ref, "aG + bG != (a+b)G")
     else:
         res.ok("aG+bG==(a+b)G", nontrivial=("add", case["a"], case["b"]))
+    # the same identity and operand equality through the library's own == / !=
+    e = [attempt(lambda: (mk(A) + mk(B)) == mk(ref)), attempt(lambda: (mk(A) + mk(B)) != mk(ref)), attempt(lambda: mk(A) == mk(B)), attempt(lambda: mk(A) != mk(B))]
+    if e != [True, False, A == B, A != B] or any(not isinstance(v, bool) for v in e):
+        res.violation("C03/real-mul/eq", vc, [repr(v) for v in e], [True, False, A == B, A != B], "S256Point == / != disagrees with equality of coordinates")
+    else:
+        res.ok("== / != agree with coordinates")
     # a(bG) == (ab)G
     if B is not None:
-        got = un(attempt(lambda: a * mk(B)))
+        got = un(guarded(LIMIT_REAL, lambda: a * mk(B)))
         ref = c.mulg(a * b % N)
         if got != ref:
-            res.violation("C03/real-mul/a(bG)", vc, got, ref, "a(bG) != (ab)G")
+            res.violation(hfp("C03/real-mul/a(bG)", got), vc, got, ref, "a(bG) != (ab)G")
         else:
             res.ok("a(bG)==(ab)G", nontrivial=("mulmul", case["a"], case["b"]))
         # a(-B) right after a(B) in the same process, -(-B) and B + (-B)
         nB = c.neg(B)
-        got = un(attempt(lambda: a * mk(nB)))
+        got = un(guarded(LIMIT_REAL, lambda: a * mk(nB)))
         ref = c.mulg((-a * b) % N)
         if got != ref:
-            res.violation("C03/real-mul/a(-B)-after-a(B)", vc, got, ref, "a * (-B) wrong after a * B was computed in the same process")
+            res.violation(hfp("C03/real-mul/a(-B)-after-a(B)", got), vc, got, ref, "a * (-B) wrong after a * B was computed in the same process")
         else:
             res.ok("a(-B)==ref", nontrivial=("mulneg", case["a"], case["b"]))
         got = un(attempt(lambda: -1 * (-1 * mk(B))))
@@ -454,6 +980,8 @@ def run_real_mul(case):
 def gen_real_enc(tier, seed):
     ss = [s for s in real_scalars(seed, tier) if s % N]
     cases = [{"kind": "roundtrip", "a": str(a % N)} for a in ss]
+    # points that are not multiples of G by a boundary scalar (tiny x: 31 bytes of zero padding; equal-y triples)
+    cases += [{"kind": "roundtrip", "a": "point", "pt": [str(Q[0]), str(Q[1])]} for Q in real_points(tier)]
     c = ec.SECP
     Gx = c.g[0]
     # x without a square root
@@ -487,7 +1015,41 @@ def gen_real_enc(tier, seed):
         ("xonly>=p", ec.b32(PP + x_ok)),
         ("xonly-2^256-1", b"\xff" * 32),
     ]
+    # uncompressed strings whose x is >= p but congruent to the x of a curve point (x_ok + p < 2^256 because x_ok is tiny;
+    # no such alias exists for y: it would need a point with y < 2^32 + 977)
+    for nm, Q in (("65-x>=p-alias-even", c.lift_x(x_ok)), ("65-x>=p-alias-odd", c.lift_x(x_ok, odd=True))):
+        rej.append((nm, b"\x04" + ec.b32(Q[0] + PP) + ec.b32(Q[1])))
     cases += [{"kind": "reject", "name": nm, "bytes": b.hex()} for nm, b in rej]
+    # the direct entry points parse_xonly / parse_sec (S256Point.parse routes by length; these do not)
+    gx, gy = ec.b32(c.g[0]), ec.b32(c.g[1])
+    direct = [
+        ("parse_xonly", "honest-32", gx),
+        ("parse_xonly", "len0", b""),
+        ("parse_xonly", "len1", b"\x01"),
+        ("parse_xonly", "len31", gx[1:]),
+        ("parse_xonly", "len31-of-short-x", ec.b32(x_ok)[1:]),
+        ("parse_xonly", "len33-zero-padded", b"\x00" + gx),
+        ("parse_xonly", "len33-02", b"\x02" + gx),
+        ("parse_xonly", "len33-trailing", gx + b"\x00"),
+        ("parse_xonly", "len33-zeros", b"\x00" * 33),
+        ("parse_xonly", "len64", gx + gy),
+        ("parse_xonly", "len64-zero-padded", b"\x00" * 32 + gx),
+        ("parse_xonly", "len65-zero-padded", b"\x00" * 33 + gx),
+        ("parse_xonly", "len65-04", b"\x04" + gx + gy),
+        ("parse_sec", "honest-33", b"\x02" + gx),
+        ("parse_sec", "honest-65", b"\x04" + gx + gy),
+        ("parse_sec", "len0", b""),
+        ("parse_sec", "len1-02", b"\x02"),
+        ("parse_sec", "len1-04", b"\x04"),
+        ("parse_sec", "len32-02", b"\x02" + gx[1:]),
+        ("parse_sec", "len32-x", gx),
+        ("parse_sec", "len34-02", b"\x02" + gx + b"\x00"),
+        ("parse_sec", "len64-04", b"\x04" + gx + gy[:-1]),
+        ("parse_sec", "len66-04", b"\x04" + gx + gy + b"\x00"),
+        ("parse_sec", "len65-02", b"\x02" + gx + gy),
+        ("parse_sec", "len33-04", b"\x04" + gx),
+    ]
+    cases += [{"kind": "direct", "fn": fn, "name": nm, "bytes": b.hex()} for fn, nm, b in direct]
     return cases
 
 
@@ -503,8 +1065,22 @@ def run_real_enc(case):
             return None
         return "inf" if Q.x is None else (Q.x.num, Q.y.num)
 
+    if case["kind"] == "direct":
+        b = bytes.fromhex(case["bytes"])
+        if case["fn"] == "parse_xonly":
+            ref = c.lift_x(int.from_bytes(b, "big")) if len(b) == 32 else None
+            got = un(attempt(pecc.S256Point.parse_xonly, b))
+        else:
+            ref = c.parse_sec(b)
+            got = un(attempt(pecc.S256Point.parse_sec, b))
+        if got != ref:
+            cls = "wrong-length-accepted" if len(b) not in ((32,) if case["fn"] == "parse_xonly" else (33, 65)) else "mismatch"
+            res.violation(f"C03/real-enc/direct/{case['fn']}-{cls}", vc, got, ref, f"{case['fn']} called directly on a {len(b)}-byte string: decode differs from the reference")
+        else:
+            res.ok("direct==ref", nontrivial=("direct", case["fn"], case["name"]), sample=case)
+        return res
     if case["kind"] == "roundtrip":
-        P = c.mulg(int(case["a"]))
+        P = (int(case["pt"][0]), int(case["pt"][1])) if "pt" in case else c.mulg(int(case["a"]))
         o = pecc.S256Point(P[0], P[1])
         for comp in (True, False):
             sec = attempt(o.sec, comp)
@@ -513,12 +1089,12 @@ def run_real_enc(case):
             elif un(attempt(pecc.S256Point.parse, sec)) != P:
                 res.violation(f"C03/real-enc/sec-roundtrip-{'c' if comp else 'u'}", vc, None, P, "parse(sec) != P")
             else:
-                res.ok("sec roundtrip", nontrivial=("sec", case["a"], comp))
+                res.ok("sec roundtrip", nontrivial=("sec", case["a"], case.get("pt"), comp))
         xo = attempt(o.xonly)
         if xo != ec.b32(P[0]) or un(attempt(pecc.S256Point.parse, xo)) != c.lift_x(P[0]):
             res.violation("C03/real-enc/xonly-roundtrip", vc, xo, ec.b32(P[0]), "xonly round trip wrong")
         else:
-            res.ok("xonly roundtrip", nontrivial=("xonly", case["a"]))
+            res.ok("xonly roundtrip", nontrivial=("xonly", case["a"], case.get("pt")))
         return res
     b = bytes.fromhex(case["bytes"])
     ref = c.parse_sec(b) if len(b) != 32 else c.lift_x(int.from_bytes(b, "big"))
@@ -533,14 +1109,15 @@ def run_real_enc(case):
 def engines(tier, seed):
     toys = [(43, 31), (79, 67)] if tier == "quick" else [(43, 31), (79, 67), (67, 79), (163, 139), (211, 199)]
     es = [
-        Engine("field", gen_field, run_field, kind="E1", rule="FieldElement over every prime p <= 31: all pairs for + - * /, all exponents and coefficients in [-p, 2p] vs integer arithmetic mod p (0 ** non-positive and x / 0 skipped)"),
-        Engine("curve", gen_curve, run_curve, kind="E1", rule="generic Point on y^2=x^3+7 over every prime 11..61 (thorough ..101): complete addition table incl. infinity/opposite/doubling/y=0, all k*P for k in [0, 2*order], every off-curve (x,y) refused, associativity on all triples for p <= 23; oracle: brute-force chord-tangent reference"),
+        Engine("field", gen_field, run_field, kind="E1", rule="FieldElement over every prime p <= 31: all pairs for + - * / == !=, == against the same residue of the next prime field, all exponents and coefficients in [-p, 2p] vs integer arithmetic mod p (0 ** non-positive and x / 0 skipped); big fields (S256Field and FieldElement modulo the secp256k1 p, FieldElement modulo 2^127-1 and 65537): all pairs of the 9 elements {0,1,2,q-2,q-1,(q-1)/2,(q+1)/2, 2 fillers} for + - * / == !=, 14 exponents {0,1,2,3,-1,-2,q-2,q-1,q,2(q-1),(q+1)/4,-(q-1),2^256+1,filler}, 10 coefficients {-1,0,1,2,3,q,q+1,2^256,-2^256,filler} vs Python integer arithmetic; S256Field.sqrt on a, a^2, -a^2 (oracle: Euler's criterion and r*r == v)"),
+        Engine("curve", gen_curve, run_curve, kind="E1", rule="generic Point on y^2=x^3+7 over every prime 11..61 (thorough ..101): complete addition table incl. infinity/opposite/doubling/y=0, == and != on every pair, all k*P for k in [0, 2*order], for k in [-2*order, -1] and for k in {2^256, 2^256+1, -2^256, -2^256-1} (each scalar multiplication under a 5 s guard: no return = does-not-terminate; after one non-terminating negative scalar the remaining negative scalars of that curve are not executed and the run is reported capped), every off-curve (x,y) refused, associativity on all triples for p <= 23; oracle: brute-force chord-tangent reference, k*P = |k|*(-P) for k < 0"),
+        Engine("curve-ab", gen_curve_ab, run_curve_ab, kind="E1", rule="generic Point on EVERY non-singular y^2=x^3+ax+b over F_p, all (a,b) in F_p^2, every prime 5..23 (thorough ..31): complete addition table incl. infinity/opposite/doubling/y=0, == and != on every pair, k*P for every k with |k| <= order+1 (quick tier: |k| <= min(order+1, 12) and k in {+-(order-1), +-order, +-(order+1)}; 5 s guard as in `curve`), every off-curve (x,y) refused; singular (a,b) skipped and counted; oracle: chord-tangent reference with the general doubling slope (3x^2+a)/(2y)"),
     ]
     for toy in toys:
-        es.append(Engine(f"toy-points-{toy[0]}", gen_toy_points(toy), run_toy_points, toy=toy, kind="E3", rule=f"toy S256Point (p={toy[0]}, n={toy[1]}): all point pairs, P + int for int in [-n, 2n], s*P for s in [-2n, 3n], sec/xonly/parse round trips on every point"))
-        es.append(Engine(f"toy-decode-{toy[0]}", gen_toy_decode(toy), run_toy_decode, toy=toy, kind="E3", rule=f"toy S256Point.parse on every 33-byte string (256 prefixes x x in [0,p+2] and two huge x), 65-byte strings (10 prefixes x all (x,y) in [0,p]^2) and x-only strings: accepted iff the SEC1/BIP340 reference decoder accepts, same point"))
+        es.append(Engine(f"toy-points-{toy[0]}", gen_toy_points(toy), run_toy_points, toy=toy, kind="E3", rule=f"toy S256Point (p={toy[0]}, n={toy[1]}): all point pairs, P + int for int in [-n, 2n], s*P for s in [-2n, 3n] (5 s guard), sec/xonly/parse round trips on every point; on every pair also the library's == and !=, (P+Q) == reference through ==, S256Point.combine of [P,Q], [P,Q,R], [R,P,Q] for R in {{inf, G, -G}}, x += Q (sum and operand unchanged); on every point P+(-P)==inf, P+P==2P, nP==inf, -1*P==-P through ==, even_point(), construction from S256Field coordinates (same coordinates, parity, sec, +, *) and from mixed int/S256Field arguments (refused or the same point)"))
+        es.append(Engine(f"toy-decode-{toy[0]}", gen_toy_decode(toy), run_toy_decode, toy=toy, kind="E3", rule=f"toy S256Point.parse on every 33-byte string (256 prefixes x x in [0,p+2] and two huge x), 65-byte strings (10 prefixes x all (x,y) in [0,p]^2; prefix 04: all (x,y) in [0,2p+2]^2 so that every point also occurs with x+p and/or y+p) and x-only strings: accepted iff the SEC1/BIP340 reference decoder accepts, same point; parse_xonly called directly on the same x values encoded in 0,1,2,16,31,33,34,64,65 bytes (zero padded, trailing zero, 02/03/04 prefixed, doubled): must be refused, and on 32 bytes: lift_x; parse_sec called directly with 9 prefixes on lengths 0,1,2,32,33,34,64,65,66 built from the same x (and both roots y): SEC1 reference; S256Field.sqrt on every element of the toy field vs the table of squares (32 zero bytes as x-only: counted skip)"))
     es += [
-        Engine("real-mul", gen_real_mul, run_real_mul, kind="E1", rule="secp256k1: boundary scalars (0,1,n-1,n,n+1,negative,>2^256,+fillers): a*G, PrivateKey(a).point, n*P, aG+bG=(a+b)G, a(bG)=(ab)G, P+int against the Jacobian reference (itself cross-checked with an affine implementation)"),
-        Engine("real-enc", gen_real_enc, run_real_enc, kind="E1", rule="secp256k1: sec/xonly round trips on boundary points; rejection catalogue (bad prefixes, x without square root, x >= p, off-curve y, wrong lengths incl. 65-byte strings with prefix 02/03)"),
+        Engine("real-mul", gen_real_mul, run_real_mul, kind="E1", rule="secp256k1: boundary scalars (0,1,n-1,n,n+1,negative,>2^256,+fillers): a*G, PrivateKey(a).point, n*P, aG+bG=(a+b)G (also through the library's == / !=), a(bG)=(ab)G, P+int against the Jacobian reference (itself cross-checked with an affine implementation); points not generated from boundary scalars: for the first 2 (thorough 4) small x on the curve the 6 points (x,±y), (beta x,±y), (beta^2 x,±y) (equal y, different x): all pairs X+Y (incl. == / !=) vs the affine reference, k*X for k in {2,-1,2^255,2^256-1,n/2,n/2+1,-(2^300)-7} on (x,y) and (beta x,y); scalar multiplications under a 120 s guard"),
+        Engine("real-enc", gen_real_enc, run_real_enc, kind="E1", rule="secp256k1: sec/xonly round trips on boundary points and on the small-x / equal-y points of real-mul; rejection catalogue (bad prefixes, x without square root, x >= p, off-curve y, wrong lengths incl. 65-byte strings with prefix 02/03, 04 || x+p || y for a curve point (x,y)); parse_xonly and parse_sec called directly on 25 strings of lengths 0,1,31,32,33,34,64,65,66 (zero padded, prefixed, truncated, extended): SEC1 / BIP340 reference, only 32 resp. 33/65 bytes can be accepted"),
     ]
     return es
